@@ -14,6 +14,10 @@ COMMON_ASSUMPTIONS = [
 
 def corr(rep, name, tag, terms, expect, metas):
     """Run the model on `terms`, compare with `expect`; returns list of indices that disagree."""
+    import supcommon
+    for ge in supcommon.GEN_ERRORS[:2]:
+        rep.violation(ge["what"], dict(metric=ge["metric"], X=ge["X"], array_kind=ge["array_kind"]), key="typed_rows:" + ge["metric"])
+    del supcommon.GEN_ERRORS[:]
     try:
         got = run_cases(tag, terms, requires=("Model.Run", "Model.RunSup"))
     except RuntimeError as ex:
